@@ -125,6 +125,9 @@ class ConcreteCtx(_Base):
     def iff(self, a, b):
         return bool(a) == bool(b)
 
+    def ite_bool(self, c, a, b):
+        return bool(a) if c else bool(b)
+
     def B(self, b):
         return bytes(b)
 
@@ -302,6 +305,9 @@ def make_symctx_class():
 
         def iff(self, a, b):
             return core.mkbool(core.bexpr(a) == core.bexpr(b))
+
+        def ite_bool(self, c, a, b):
+            return core.mkbool(z3.If(core.bexpr(c), core.bexpr(a), core.bexpr(b)))
 
         def ite(self, c, a, b):
             if isinstance(c, (core.SymBool, core.SymInt)) and isinstance(a, (vtypes.VBytes, bytes)):
